@@ -208,6 +208,11 @@ func runConcInput(rep *Report, in ConcInput) {
 						errs <- err.Error()
 						return
 					}
+					// the length first (a root without FileSize measures its links for it), from every goroutine at once
+					if end, err := r.Seek(0, io.SeekEnd); err != nil || end != int64(len(content)) {
+						errs <- fmt.Sprintf("reader %d: Seek(0, SeekEnd) = %d, %v; alone it returns %d", g, end, err, len(content))
+						return
+					}
 					off := (g * 37) % (len(content) + 1)
 					if _, err := r.Seek(int64(off), io.SeekStart); err != nil {
 						errs <- err.Error()
